@@ -308,6 +308,7 @@ Inductive action :=
 | AClose                      (* stub store: the stream channel is closed *)
 | APut (a : addr)             (* etcd: RegisterService(a) *)
 | ADel (a : addr)             (* etcd: unregister a *)
+| ABatch (evs : list kvev)    (* etcd: several changes in one transaction = one watch response *)
 | ASub (key : nat) (reading : bool)
 | ARead (i : nat)
 | AStall (i : nat)
@@ -336,6 +337,8 @@ Definition act_events (eps : aset) (a : action) : list event * aset :=
   | APut x => let '(eps', ch) := apply_events [Put x] eps false in
               (if ch then [ESrc (Item eps')] else [], eps')
   | ADel x => let '(eps', ch) := apply_events [Del x] eps false in
+              (if ch then [ESrc (Item eps')] else [], eps')
+  | ABatch evs => let '(eps', ch) := apply_events evs eps false in
               (if ch then [ESrc (Item eps')] else [], eps')
   | ASub k r => ([ESubscribe k r], eps)
   | ARead i => ([ESetReading i true], eps)
@@ -505,6 +508,8 @@ Definition ok_step (o : okst) (sl : slot) : okst :=
     | APut x => let '(e, ch) := apply_events [Put x] (o_eps o) false in
                 (if ch then o_hist o ++ [e] else o_hist o, e, o_dead o)
     | ADel x => let '(e, ch) := apply_events [Del x] (o_eps o) false in
+                (if ch then o_hist o ++ [e] else o_hist o, e, o_dead o)
+    | ABatch evs => let '(e, ch) := apply_events evs (o_eps o) false in
                 (if ch then o_hist o ++ [e] else o_hist o, e, o_dead o)
     | _ => (o_hist o, o_eps o, o_dead o)
     end in
